@@ -27,6 +27,22 @@ class ListOfChildren(symval.Node):
         return [self.items[j].make(env) for j in range(k)]
 
 
+class DictOfChildren(symval.Node):
+    """a dict input whose keys (each with symbolic presence) carry arbitrary children: a named tuple read with the as_dict engine"""
+
+    def __init__(self, ctx, keys, extra):
+        self.keys = keys
+        self.flags = [ctx.new("p", "bool") for _ in keys]
+        self.items = [arb.Child(ctx, (), base=[7, "abc"]) for _ in keys]
+
+    def make(self, env):
+        d = {}
+        for k, fl, it in zip(self.keys, self.flags, self.items):
+            if env[fl]:
+                d[k] = it.make(env)
+        return d
+
+
 class Input(symval.Node):
     """dict input for dataclass T: per field a presence flag; fields in `bad` are arbitrary children, the others
     carry the reference encoding of a conforming symbolic value; plus stranger keys and a non-dict root selector."""
@@ -44,6 +60,10 @@ class Input(symval.Node):
                 flag = None  # pairs: the other fields are always present (their absence is covered by the singles)
             else:
                 flag = ctx.new("p", "bool")
+            if n in bad and tinfo.info(ft).kind == "namedtuple" and f.metadata.get("deserialize") == "as_dict":
+                node = DictOfChildren(ctx, [x for x, _ in tinfo.nt_fields(tinfo.info(ft).type)], strs[:1])
+                self.fields.append((n, key, flag, "arb", node, ft))
+                continue
             if n in bad and tinfo.info(ft).kind in ("namedtuple", "tuple_fixed", "tuple_var", "seq"):
                 node = ListOfChildren(ctx, 4, strs[:2])
                 self.fields.append((n, key, flag, "arb", node, ft))
